@@ -55,7 +55,8 @@ def _plan(ctx, w):
         plan['net'] = {k: v for k, v in w_rates.items() if s.draw(2)}
     if kinds['db']:
         rates = {'deadlock': 0.004, 'lost_conn': 0.002, 'lost_conn_after': 0.002, 'lost_conn_after_commit': 0.004,
-                 'lost_conn_before_commit': 0.004, 'too_many_conn': 0.005, 'stall': 0.004}
+                 'lost_conn_before_commit': 0.004, 'too_many_conn': 0.005, 'stall': 0.004,
+                 'fatal': 0.0008}
         plan['db'] = {k: v for k, v in rates.items() if s.draw(2)}
     if kinds['worker']:
         rates = {'clock_skew': 0.5, 'clock_jump': 0.1, 'skip_started': 0.15, 'dup_report': 0.2, 'late_report': 0.08}
@@ -102,8 +103,12 @@ async def client_actor(ctx, w, idx, user, st):
                     ctx.probe('job_private_job')
                 else:
                     res = {'cpu': CPUS[s.draw(len(CPUS))], 'memory': 'standard', 'storage': '1Gi'}
+                # a small attempt budget in some jobs: preemptions / lost workers then reach the "too many prior
+                # attempts" path (the job must end in Error, nothing else may be touched)
+                nmax = (20, 20, 20, 1, 2, 3)[s.draw(6)]
                 j = tgt.create_job('ubuntu:22.04', ['true'], parents=parents, always_run=s.draw(5) == 0,
-                                   resources=res, attributes={'uniq': f'c{idx}b{bi}j{len(jobs)}'})
+                                   resources=res, attributes={'uniq': f'c{idx}b{bi}j{len(jobs)}'},
+                                   n_max_attempts=nmax)
                 jobs.append(j)
             if not b._jobs and not b._job_groups and b.is_created:
                 continue
@@ -181,11 +186,22 @@ async def legacy_actor(ctx, w, user, st):
         return
     bid = js['id']
     specs = []
+    modern = s.draw(2) == 1  # a REST client that writes current-format specs itself
     for i in range(1, n + 1):
         parents = sorted({s.rint(1, i - 1) for _ in range(s.draw(3))}) if i > 1 else []
-        specs.append({'always_run': s.draw(5) == 0, 'job_id': i, 'parent_ids': parents,
-                      'process': {'command': ['true'], 'image': 'ubuntu:22.04', 'type': 'docker'},
-                      'resources': {'cpu': CPUS[s.draw(len(CPUS))], 'memory': 'standard', 'storage': '1Gi'}})
+        if modern:
+            # in update 1 an absolute id and an in-update id name the same job: a hand-written client may mix them
+            ab = [p for p in parents if s.draw(2)]
+            spec = {'always_run': s.draw(5) == 0, 'n_max_attempts': 20, 'always_copy_output': False, 'job_id': i,
+                    'absolute_parent_ids': ab, 'in_update_parent_ids': [p for p in parents if p not in ab],
+                    'absolute_job_group_id': 0}
+            if ab and len(ab) < len(parents):
+                ctx.probe('raw_mixed_parent_kinds')
+        else:
+            spec = {'always_run': s.draw(5) == 0, 'job_id': i, 'parent_ids': parents}
+        spec['process'] = {'command': ['true'], 'image': 'ubuntu:22.04', 'type': 'docker'}
+        spec['resources'] = {'cpu': CPUS[s.draw(len(CPUS))], 'memory': 'standard', 'storage': '1Gi'}
+        specs.append(spec)
     half = s.rint(1, n)
     for chunk in (specs[:half], specs[half:]):
         if chunk:
@@ -210,6 +226,7 @@ async def legacy_actor(ctx, w, user, st):
 
 async def chaos_actor(ctx, w, st):
     s = ctx.stream('chaos')
+    loop_ = asyncio.get_running_loop()
     cloud_rates = st['plan'].get('cloud', {})
     while not st['heal']:
         await asyncio.sleep(5 + s.ticks(20000))
@@ -224,7 +241,21 @@ async def chaos_actor(ctx, w, st):
             st['crashes'] += 1
             st['driver_down'] = True
             st['restart_task'] = None
-            crash_driver(w)
+            if s.draw(2):
+                # half of the stops are placed INSIDE a client-side transaction of the driver: wait (bounded) until
+                # one of its connections has executed a write of a still-open multi-statement transaction
+                fut = loop_.create_future()
+                w.arm_mid_transaction('driver', lambda: None if fut.done() else fut.set_result(None))
+                try:
+                    await asyncio.wait_for(fut, 45)
+                except asyncio.TimeoutError:
+                    w.armed.clear()
+            if s.draw(2):
+                # graceful shutdown: tasks are cancelled (their finally / transaction exits run), then the rest dies
+                from worlds.batch.driverworld import sigterm_driver
+                await sigterm_driver(w)
+            else:
+                crash_driver(w)
             await asyncio.sleep(s.rint(1, 25))
             # the restart is its own task: cancelling this actor (heal) must not cancel a boot that is under way
             st['restart_task'] = asyncio.ensure_future(restart_driver(w))
@@ -235,6 +266,13 @@ async def chaos_actor(ctx, w, st):
             st['fe_crashes'] += 1
             st['fe_down'] = True
             st['fe_restart'] = None
+            if s.draw(2):
+                fut = loop_.create_future()
+                w.arm_mid_transaction('front_end', lambda: None if fut.done() else fut.set_result(None))
+                try:
+                    await asyncio.wait_for(fut, 45)
+                except asyncio.TimeoutError:
+                    w.armed.clear()
             w.crash_front_end()
             await asyncio.sleep(s.rint(1, 15))
             st['fe_restart'] = asyncio.ensure_future(w.restart_front_end())
@@ -356,6 +394,10 @@ def run(ctx):
             if st.get('restart_task') is not None:
                 await st['restart_task']
             else:
+                if w.driver_app is not None:
+                    # this actor was stopped in the middle of a graceful shutdown: finish the old incarnation off
+                    from worlds.batch.driverworld import crash_driver
+                    crash_driver(w)
                 await restart_driver(w)
         st['driver_down'] = False
         if st['fe_down']:
